@@ -493,8 +493,9 @@ def env_groups(tier):
                 # no fault+kill combinations here (quadratic; the unflagged scenarios have them)
                 groups.append({"producer": prod, "scenario": sc, "old": True, "main": False, "env": env, "kill": 1,
                                "faults": {"ENOSPC": 1}, "faultable": FAULTABLE, "no_combo": True})
-                groups.append({"producer": prod, "scenario": sc, "old": False, "main": False, "env": env, "kill": 2,
-                               "faults": {}, "faultable": (), "no_combo": True})
+                if env == "rel+xdev":       # without a previous version: the adversarial corner only
+                    groups.append({"producer": prod, "scenario": sc, "old": False, "main": False, "env": env, "kill": 2,
+                                   "faults": {}, "faultable": (), "no_combo": True})
             else:
                 groups.append({"producer": prod, "scenario": sc, "old": True, "main": False, "env": env,
                                "kill": ENV_QUICK[env][prod], "faults": {}, "faultable": (), "no_combo": True})
